@@ -341,6 +341,32 @@ def r4_search_results_checked(ctx: Ctx) -> None:
     ctx.count("find_calls", n)
 
 
+def identifier_start_sets(ctx: Ctx) -> None:
+    """an identifier may begin with any ASCII letter or `_` wherever one can start: at statement level (lex_initial) and inside an
+    operand / expression (lex_expression).  The two character sets are siblings and must agree; a name that lexes in one context and
+    not in the other breaks renaming (`table` -> `_table`) and moving code between contexts."""
+    import string
+
+    sets = {}
+    for fname in ("lex_initial", "lex_expression"):
+        f_ = ctx.repo.func(SST, fname)
+        for n in walk_no_nested(f_.node):
+            if isinstance(n, ast.If) and isinstance(n.test, ast.Call) and call_name(n.test) == "s.accept" and n.test.args \
+                    and any((call_name(c) or "") in ("lex_identifier", "accept_opcode") for b in n.body for c in calls_in(b)):
+                sets[fname] = const_str(n.test.args[0])
+    if len(sets) != 2 or any(v is None for v in sets.values()):
+        raise AnalysisError(f"identifier start sets not found in both lexing contexts ({sorted(sets)})")
+    need = set(string.ascii_letters + "_")
+    for fname, v in sets.items():
+        ctx.check(need <= set(v or ""), f"{fname}:identifier-start", f"every ASCII letter and `_` can start an identifier; missing {sorted(need - set(v or ''))}")
+    ctx.check(set(sets["lex_initial"] or "") == set(sets["lex_expression"] or ""), "identifier-start:contexts-agree",
+              f"statement level and expression level accept the same first characters; difference {sorted(set(sets['lex_initial'] or '') ^ set(sets['lex_expression'] or ''))}")
+
+
+def r5_identifier_start_sets(ctx: Ctx) -> None:
+    identifier_start_sets(ctx)
+
+
 def rm_no_process_lifetime_results(ctx: Ctx) -> None:
     """memoising decorators, module-level stores and mutable defaults on this property's mechanism (shared rule, caches.py)"""
     from ..caches import state_rule
@@ -355,4 +381,4 @@ def ru_names_bound(ctx: Ctx) -> None:
     names_rule(ctx)
 
 
-RULES = [r1_case_fold_before_keying, r2_skip_sets, r3_include_is_transparent, r4_search_results_checked, rm_no_process_lifetime_results, ru_names_bound]
+RULES = [r1_case_fold_before_keying, r2_skip_sets, r3_include_is_transparent, r4_search_results_checked, r5_identifier_start_sets, rm_no_process_lifetime_results, ru_names_bound]
